@@ -487,7 +487,8 @@ class CFG:
         return seen
 
     def find_path(self, start: int, goal: Callable[[Node], bool], kinds=("n", "e", "s"),
-                  blocked: Callable[[Node], bool] = None) -> Optional[List[Edge]]:
+                  blocked: Callable[[Node], bool] = None,
+                  edge_ok: Callable[[Edge], bool] = None) -> Optional[List[Edge]]:
         """Shortest path (BFS) from start to a node satisfying goal, avoiding blocked nodes."""
         from collections import deque
         prev: Dict[int, Edge] = {}
@@ -505,12 +506,19 @@ class CFG:
             for e in self.succ[n]:
                 if e.kind not in kinds or e.dst in seen:
                     continue
+                if edge_ok is not None and not edge_ok(e):
+                    continue
                 if blocked and blocked(self.nodes[e.dst]) and not goal(self.nodes[e.dst]):
                     continue
                 seen.add(e.dst)
                 prev[e.dst] = e
                 dq.append(e.dst)
         return None
+
+    def no_cleanup_exc(self, e: Edge) -> bool:
+        """Edge filter: statements of cleanup code itself (inlined finally bodies / with exits) are assumed not to
+        raise, so exceptional edges leaving them are not followed."""
+        return not (e.kind == "e" and self.nodes[e.src].region)
 
     def dominators(self, kinds=("n", "e", "s")) -> Dict[int, Set[int]]:
         reach = self.reachable([self.entry], kinds)
